@@ -74,12 +74,137 @@ fn first_word_is(line: &str, words: &[&str]) -> bool {
     }
 }
 
+/// A running `abasic-lsp` server spoken to over stdio (Content-Length framed JSON-RPC).
+pub struct LspServer {
+    child: std::process::Child,
+    stdin: std::process::ChildStdin,
+    stdout: std::io::BufReader<std::process::ChildStdout>,
+    opened: bool,
+    next_id: u64,
+}
+
+impl LspServer {
+    pub fn start() -> Option<LspServer> {
+        let bin = std::env::var("VERIF_LSP_BIN").unwrap_or_else(|_| "/verif/.cache/target-repo/debug/abasic-lsp".to_string());
+        let mut child = std::process::Command::new(bin)
+            .stdin(std::process::Stdio::piped())
+            .stdout(std::process::Stdio::piped())
+            .stderr(std::process::Stdio::null())
+            .env("RUST_BACKTRACE", "0")
+            .spawn()
+            .ok()?;
+        let stdin = child.stdin.take()?;
+        let stdout = std::io::BufReader::new(child.stdout.take()?);
+        let mut s = LspServer { child, stdin, stdout, opened: false, next_id: 1 };
+        s.send(r#"{"jsonrpc":"2.0","id":0,"method":"initialize","params":{"capabilities":{}}}"#);
+        // the initialize response
+        s.read_message()?;
+        s.send(r#"{"jsonrpc":"2.0","method":"initialized","params":{}}"#);
+        Some(s)
+    }
+    fn send(&mut self, body: &str) {
+        use std::io::Write;
+        let _ = write!(self.stdin, "Content-Length: {}\r\n\r\n{}", body.len(), body);
+        let _ = self.stdin.flush();
+    }
+    fn read_message(&mut self) -> Option<serde_json::Value> {
+        use std::io::{BufRead, Read};
+        let mut len = 0usize;
+        loop {
+            let mut line = String::new();
+            if self.stdout.read_line(&mut line).ok()? == 0 {
+                return None;
+            }
+            let l = line.trim();
+            if l.is_empty() {
+                break;
+            }
+            if let Some(v) = l.strip_prefix("Content-Length:") {
+                len = v.trim().parse().ok()?;
+            }
+        }
+        let mut buf = vec![0u8; len];
+        self.stdout.read_exact(&mut buf).ok()?;
+        serde_json::from_slice(&buf).ok()
+    }
+    /// open (first time) or change the document, then ask for semantic tokens;
+    /// returns (diagnostics JSON, tokens JSON) or None if the server died
+    pub fn document(&mut self, text: &str) -> Option<(serde_json::Value, serde_json::Value)> {
+        let t = serde_json::Value::String(text.to_string()).to_string();
+        if !self.opened {
+            self.send(&format!(r#"{{"jsonrpc":"2.0","method":"textDocument/didOpen","params":{{"textDocument":{{"uri":"file:///t.bas","languageId":"abasic","version":1,"text":{}}}}}}}"#, t));
+            self.opened = true;
+        } else {
+            self.send(&format!(r#"{{"jsonrpc":"2.0","method":"textDocument/didChange","params":{{"textDocument":{{"uri":"file:///t.bas","version":2}},"contentChanges":[{{"text":{}}}]}}}}"#, t));
+        }
+        let id = self.next_id;
+        self.next_id += 1;
+        self.send(&format!(r#"{{"jsonrpc":"2.0","id":{},"method":"textDocument/semanticTokens/full","params":{{"textDocument":{{"uri":"file:///t.bas"}}}}}}"#, id));
+        let mut diags = None;
+        let mut toks = None;
+        while diags.is_none() || toks.is_none() {
+            let m = self.read_message()?;
+            if m.get("method").and_then(|x| x.as_str()) == Some("textDocument/publishDiagnostics") {
+                diags = Some(m["params"]["diagnostics"].clone());
+            } else if m.get("id").and_then(|x| x.as_u64()) == Some(id) {
+                toks = Some(m["result"]["data"].clone());
+            }
+        }
+        Some((diags?, toks?))
+    }
+}
+
+impl Drop for LspServer {
+    fn drop(&mut self) {
+        let _ = self.child.kill();
+        let _ = self.child.wait();
+    }
+}
+
+fn enc_mapped(m: Option<(usize, std::ops::Range<usize>)>) -> String {
+    match m {
+        None => "-".to_string(),
+        Some((f, r)) => format!("{}:{}-{}", f, r.start, r.end),
+    }
+}
+
+/// canonical text of an analysis, as the Lean driver's `encAnalysis`
+pub fn enc_analysis(a: &abasic_core::SourceFileAnalyzer) -> String {
+    let toks = a
+        .token_types()
+        .iter()
+        .map(|lt| lt.iter().map(|(tt, r)| format!("{:?}@{}-{}", tt, r.start, r.end)).collect::<Vec<_>>().join(","))
+        .collect::<Vec<_>>()
+        .join("|");
+    let map = a.source_file_map();
+    let mut msgs: Vec<String> = a
+        .messages()
+        .iter()
+        .map(|m| match m {
+            abasic_core::DiagnosticMessage::Warning(f, loc, msg) => format!(
+                "W:{}:{}:{}>{}",
+                f,
+                match loc {
+                    Some(l) => format!("{}:{}", l.line, l.token_index),
+                    None => "-".to_string(),
+                },
+                hex(msg),
+                enc_mapped(map.map_to_source(m))
+            ),
+            abasic_core::DiagnosticMessage::Error(f, e) => format!("E:{}:{}>{}", f, hooks::enc_error(e), enc_mapped(map.map_to_source(m))),
+        })
+        .collect();
+    msgs.sort();
+    format!("T {} ; M {}", toks, msgs.join(" "))
+}
+
 pub struct Session {
     pub interp: Interpreter,
     pub last_err: Option<TracedInterpreterError>,
     /// the output still to be taken comes from INTERNALS / STATS (text not modelled)
     opaque_pending: bool,
     pub panicked: Option<String>,
+    pub lsp: Option<LspServer>,
 }
 
 impl Default for Session {
@@ -89,6 +214,7 @@ impl Default for Session {
             last_err: None,
             opaque_pending: false,
             panicked: None,
+            lsp: None,
         }
     }
 }
@@ -146,6 +272,69 @@ impl Session {
             }
             ["fuel", _] => "ok".to_string(),
             ["fold", ..] => "SPEC".to_string(),
+            ["analyze", rest @ ..] => {
+                let text = match rest {
+                    [] => Some(String::new()),
+                    [h] => unhex(h),
+                    _ => None,
+                };
+                match text {
+                    Some(t) => enc_analysis(&abasic_core::SourceFileAnalyzer::analyze(t)),
+                    None => "bad-utf8".to_string(),
+                }
+            }
+            ["load", h] => match unhex(h) {
+                Some(t) => {
+                    let a = abasic_core::SourceFileAnalyzer::analyze(t);
+                    *self = Session::default();
+                    self.interp = a.into_interpreter();
+                    "ok".to_string()
+                }
+                None => "bad-utf8".to_string(),
+            },
+            ["lsp", rest @ ..] => {
+                let text = match rest {
+                    [] => Some(String::new()),
+                    [h] => unhex(h),
+                    _ => None,
+                };
+                let Some(text) = text else { return "bad-utf8".to_string() };
+                if self.lsp.is_none() {
+                    self.lsp = LspServer::start();
+                }
+                let Some(server) = self.lsp.as_mut() else { return "NO-SERVER".to_string() };
+                match server.document(&text) {
+                    None => {
+                        self.lsp = None;
+                        "PANIC:server-exited".to_string()
+                    }
+                    Some((diags, toks)) => {
+                        let mut ds: Vec<String> = diags
+                            .as_array()
+                            .map(|a| {
+                                a.iter()
+                                    .map(|d| {
+                                        format!(
+                                            "{}:{}-{}:{}:{}",
+                                            d["range"]["start"]["line"],
+                                            d["range"]["start"]["character"],
+                                            d["range"]["end"]["character"],
+                                            if d["severity"].as_u64() == Some(1) { "E" } else { "W" },
+                                            hex(d["message"].as_str().unwrap_or(""))
+                                        )
+                                    })
+                                    .collect()
+                            })
+                            .unwrap_or_default();
+                        ds.sort();
+                        let ts: Vec<String> = toks
+                            .as_array()
+                            .map(|a| a.chunks(5).map(|c| format!("{},{},{},{}", c[0], c[1], c[2], c[3])).collect())
+                            .unwrap_or_default();
+                        format!("D {} ; S {}", ds.join(" "), ts.join(" "))
+                    }
+                }
+            }
             ["flags", w, t] => {
                 self.interp.enable_warnings = *w == "1";
                 self.interp.enable_tracing = *t == "1";
